@@ -2,6 +2,7 @@ package harness
 
 import (
 	"fmt"
+	"strings"
 	"testing"
 
 	"pgregory.net/rapid"
@@ -14,6 +15,9 @@ type C02Case struct {
 	Expr *Expr  `json:"expr"`
 	Seed uint64 `json:"seed"`
 }
+
+// AutoVar command whose result var is its first argument: every such leaf has a var of its own
+var c02Auto = AutoCfg{"specialvar": {ArgPos: new(int)}}
 
 func c02File(c *C02Case) *File {
 	yes := sCmd(&Cmd{Name: "yes"})
@@ -189,7 +193,10 @@ func leafWorldValue(l *Leaf, want bool, alt uint64) (key string, val int, extra 
 			return key, 1, nil
 		}
 		return key, 0, nil
-	case "var":
+	case "var", "auto":
+		if l.Kind == "auto" {
+			name = joinToks(l.Auto.Args[0].Toks)
+		}
 		key = "var:" + name
 		var cands []int
 		switch l.Op {
@@ -284,7 +291,7 @@ func checkC02(c *C02Case) *Violation {
 	n := len(leaves)
 	var outs [2]string
 	for i, opt := range []bool{false, true} {
-		res := Compile(src, Opts{Optimize: opt})
+		res := CompileMaybeLM(src, Opts{Optimize: opt, Auto: c02Auto})
 		if !res.OK() {
 			if res.Panic != nil || res.Budget {
 				return viol("crash", "opt=%v %s\n--- source\n%s", opt, res.Describe(), src)
@@ -293,7 +300,7 @@ func checkC02(c *C02Case) *Violation {
 		}
 		outs[i] = res.Out
 	}
-	ref := NewRef(f, nil)
+	ref := NewRef(f, c02Auto)
 	asms := [2]*Asm{ParseAsm(outs[0]), ParseAsm(outs[1])}
 	total := 1 << uint(n)
 	limit := total
@@ -321,7 +328,20 @@ func checkC02(c *C02Case) *Violation {
 		idx := 0
 		want := truthEval(c.Expr, truth, &idx)
 		ro := ref.Run("S", w)
-		if ro.String() != c02Expected(c.Ctx, want) {
+		// the AutoVar commands of the leaves are trace events too; the statement's expectation is about the rest
+		filtered := Outcome{Finish: ro.Finish}
+		for _, ev := range ro.Trace {
+			if !strings.HasPrefix(ev, "specialvar ") {
+				filtered.Trace = append(filtered.Trace, ev)
+			}
+		}
+		if filtered.Finish == "CommandLimit" {
+			// loop contexts hit the horizon earlier when leaves contribute events: compare the prefix only
+			exp := c02Expected(c.Ctx, want)
+			if !strings.HasPrefix(exp, strings.Join(filtered.Trace, " ; ")) || !strings.HasSuffix(exp, "CommandLimit") {
+				panic(fmt.Sprintf("harness self-check: reference interpreter disagrees with truth table\n%s\nassignment %v want %v ref %s", src, truth, want, ro))
+			}
+		} else if filtered.String() != c02Expected(c.Ctx, want) {
 			panic(fmt.Sprintf("harness self-check: reference interpreter disagrees with truth table\n%s\nassignment %v want %v ref %s", src, truth, want, ro))
 		}
 		for i := range asms {
@@ -341,8 +361,12 @@ func checkC02(c *C02Case) *Violation {
 // ---- generator: every leaf reads its own operand ----
 
 func c02Leaf(t *rapid.T, i int) *Leaf {
-	kind := rapid.SampledFrom([]string{"flag", "flag", "var", "var", "defeated"}).Draw(t, "kind")
+	kind := rapid.SampledFrom([]string{"flag", "flag", "var", "var", "defeated", "auto"}).Draw(t, "kind")
 	l := &Leaf{Kind: kind}
+	if kind == "auto" {
+		l.Auto = &Cmd{Name: "specialvar", Args: []*Arg{{Toks: []string{fmt.Sprintf("VAR_%d", i)}}, {Toks: []string{fmt.Sprintf("Func%d", i)}}}}
+		kind = "var"
+	}
 	switch kind {
 	case "flag":
 		l.Operand = []string{fmt.Sprintf("FLAG_%d", i)}
@@ -440,7 +464,7 @@ func init() {
 	register("C02", "TestC02_Truth", checkC02, c02Src)
 }
 
-const c02Rule = "a condition E (random tree of 1-8 leaves, thorough 12, over && || ! and redundant parentheses; every leaf form: flag/defeated bare, negated, ==/!= TRUE/FALSE; var bare, negated, six operators, value(); literal, hex, negative, symbolic, var-id-range and multi-token values; multi-token operands) placed in if/else, elif, while, do-while, also as the last statement of a script that is followed by another script, and as the first / second of two elif branches or an elif with an empty block; every leaf reads its own flag/var/trainer; for EVERY truth assignment to the leaves (2^n, 256 sampled above n=8) a scripted world realises it (vars below/at/above the comparison value) and the assembly run must equal the reference run, optimize off and on; plus exhaustive enumeration of all trees up to 3 leaves (thorough 4). non-trivial = >=3 leaves mixing && and ||, or a negated group, or a redundant parenthesis right after &&; distinct by source text"
+const c02Rule = "a condition E (random tree of 1-8 leaves, thorough 12, over && || ! and redundant parentheses; every leaf form: AutoVar command with a result var of its own, flag/defeated bare, negated, ==/!= TRUE/FALSE; var bare, negated, six operators, value(); literal, hex, negative, symbolic, var-id-range and multi-token values; multi-token operands) placed in if/else, elif, while, do-while, also as the last statement of a script that is followed by another script, and as the first / second of two elif branches or an elif with an empty block; every leaf reads its own flag/var/trainer; for EVERY truth assignment to the leaves (2^n, 256 sampled above n=8) a scripted world realises it (vars below/at/above the comparison value) and the assembly run must equal the reference run, optimize off and on; plus exhaustive enumeration of all trees up to 3 leaves (thorough 4). non-trivial = >=3 leaves mixing && and ||, or a negated group, or a redundant parenthesis right after &&; distinct by source text"
 
 func TestC02_Regress(t *testing.T) { runRegress(t, "C02") }
 
